@@ -20,6 +20,8 @@ EXPLANATION = (
     "the frames a successful Lower::get consumed (held == 0 at every return; on Err returns nothing was consumed). "
     "R-BALANCE-LOWER: same ledger inside Lower::get/get_at/put_small between the huge-entry counter and the bitfield. "
     "R-STATS-MERGE: tree_stats adds every field Locals::stats writes; stats/stats_at read the huge entries. "
+    "R-STATS-AT: the per-frame query needs bit == 0 and entry.free() > 0 (a whole huge allocation leaves the bits 0), the per-huge "
+    "query reports the entry's counter, the per-tree query sums the entries. "
     "R-RESERVE-BEFORE-LOWER (shared with C15): the counter a Lower::get is charged to is the counter of the tree it allocates from "
     "(a targeted attempt filters reservations by the frame's tree)."
 )
@@ -260,12 +262,101 @@ def r_stats_merge(rep, prog):
                   "%s no longer reads the huge entries' counters" % fn, b.span)
 
 
+def r_stats_at(rep, prog):
+    """Per-frame / per-huge-frame / per-tree free queries of the lower level read the state the ledger rules keep consistent."""
+    rule = "R-STATS-AT"
+    rep.rule(rule, "Lower::stats_at: a base frame is free iff its bit is 0 and its huge entry is not allocated as a whole (free() > 0); "
+                   "a huge frame reports its entry's counter and counter / HUGE_FRAMES; a tree sums its entries and free_frames / TREE_FRAMES")
+    fn = "llfree::lower::Lower::stats_at"
+    b = lib.need_body(prog, fn)
+    rep.saw(fn)
+    tm = T.Terms(b, prog)
+    HF = prog.crate("llfree").const("llfree::HUGE_FRAMES")
+    TF = prog.crate("llfree").const("llfree::TREE_FRAMES")
+    ENTRY = ("call", HE + "free", (("call", "llfree::atomic::Atom::load", (("idx", ("call", "llfree::lower::Lower::children",
+             (("p", "self"), ("call", "llfree::FrameId::as_tree", (("p", "frame"),)))), ("call", "llfree::lower::HugeId::child_idx",
+              (("call", "llfree::FrameId::as_huge", (("p", "frame"),)),))),)),))
+    # (a) base frame
+    iz = lib.find_calls(b, "llfree::bitfield::Bitfield::is_zero")
+    good_bit = False
+    guarded = False
+    for bi, t in iz:
+        a = [T.canon(tm.operand(x)) for x in t["args"]]
+        good_bit = (a[0] == ("call", "llfree::lower::Lower::bitfield", (("p", "self"), ("call", "llfree::FrameId::as_huge", (("p", "frame"),))))
+                    and a[1] == ("p", "frame") and a[2] == ("c", 0))
+        for s_, d_ in lib.controlling_edges(b, bi):
+            c = tm.operand(b.term(s_)["discr"])
+            pol = lib.bool_edge_polarity(b, s_, d_)
+            cmp_ = lib.normalize_cmp(c) if c[0] == "bin" else None
+            if cmp_ and pol is not None:
+                lhs, rel, rhs = cmp_ if pol else lib.negate_rel(cmp_)
+                if rel in ("gt", "ge"):
+                    lhs, rhs, rel = rhs, lhs, {"gt": "lt", "ge": "le"}[rel]
+                if T.canon(rhs) == ENTRY and ((rel == "lt" and T.const_val(lhs) == 0) or (rel == "le" and T.const_val(lhs) == 1)):
+                    guarded = True
+                if rel == "ne" and ENTRY in (T.canon(lhs), T.canon(rhs)) and 0 in (T.const_val(lhs), T.const_val(rhs)):
+                    guarded = True
+            if c[0] == "call" and c[1] == HE + "huge" and pol is False and T.canon(c[2][0]) == ENTRY[2][0]:
+                guarded = True
+    rep.check(len(iz) == 1 and good_bit, rule, "stats_at|base|bit", "reads bit (frame, order 0) of the frame's bitfield",
+              "the base-frame query does not test the frame's own bit", b.span)
+    rep.check(guarded, rule, "stats_at|base|entry", "only if the frame's huge entry has free() > 0 (not allocated as a whole huge frame)",
+              "the base-frame query reports a frame free without consulting its huge entry: frames of a huge frame allocated as a "
+              "whole (all bits 0, counter 0) are reported free", iz[0][1]["span"] if iz else b.span)
+    base_ok = huge_ok = False
+    for bi, si, st in b.stmts():
+        if st["k"] != "assign" or st["rv"]["k"] != "aggregate" or "Stats" not in str(st["rv"]["kind"].get("adt", "")):
+            continue
+        t = tm.rvalue(st["rv"])
+        alts = T.alternatives(tm, t)
+        firsts = [T.canon(T.strip_casts(a[2][0])) for a in alts if a[0] == "agg" and len(a[2]) == 3]
+        if iz and any(f[0] == "call" and f[1] == "llfree::bitfield::Bitfield::is_zero" for f in firsts):
+            base_ok = all((f[0] == "call" and f[1] == "llfree::bitfield::Bitfield::is_zero") or f == ("c", 0) for f in firsts)
+        c = T.canon(t)
+        if c[0] == "agg" and len(c[2]) == 3 and c[2][0] == ENTRY:
+            huge_ok = c[2][1] == ("bin", "Div", ENTRY, ("c", HF)) and c[2][2] == ("c", 0)
+    rep.check(base_ok, rule, "stats_at|base|result", "free_frames = (entry free && bit zero) as usize, else 0",
+              "the base-frame result is not the guarded bit test", b.span)
+    rep.check(huge_ok, rule, "stats_at|huge", "free_frames = entry.free(), free_huge = entry.free() / HUGE_FRAMES",
+              "the huge-frame query does not report the counter of the frame's huge entry", b.span)
+    # (c) tree: fold over the entries
+    acc = {}
+    for cb in prog.crate("llfree").closures_of(fn):
+        ctm = T.Terms(cb, prog)
+        for bi, si, st in cb.stmts():
+            p = st.get("place", {}).get("p") if st["k"] == "assign" else None
+            if p and p[-1]["k"] == "field" and p[-1].get("n") in ("free_frames", "free_huge", "free_trees"):
+                l = T.linear(ctm.rvalue(st["rv"]))
+                ls = T.linear(ctm.place(st["place"]))
+                if l is not None and ls is not None:
+                    acc[p[-1]["n"]] = T._lin_add(l, ls, -1)
+    EF = ("call", HE + "free", (("call", "llfree::atomic::Atom::load", (("p", "e"),)),))
+    ok_ff = acc.get("free_frames") is not None and len(acc["free_frames"][0]) == 1 and acc["free_frames"][1] == 0 and \
+        list(acc["free_frames"][0].items())[0][1] == 1 and list(acc["free_frames"][0].keys())[0][:2] == ("call", HE + "free")
+    rep.check(ok_ff, rule, "stats_at|tree|free_frames", "sums entry.free() over the tree's entries",
+              "the per-tree query does not sum the entries' counters: %s" % (acc.get("free_frames"),), b.span)
+    fh = acc.get("free_huge")
+    ok_fh = fh is not None and fh[1] == 0 and len(fh[0]) == 1 and list(fh[0].keys())[0][0] == "bin" and list(fh[0].keys())[0][1] == "Div" \
+        and list(fh[0].keys())[0][3] == ("c", HF)
+    rep.check(ok_fh, rule, "stats_at|tree|free_huge", "adds entry.free() / HUGE_FRAMES per entry",
+              "the per-tree query counts free huge frames as %s" % (fh,), b.span)
+    ft = None
+    for bi, si, st in b.stmts():
+        p = st.get("place", {}).get("p") if st["k"] == "assign" else None
+        if p and p[-1]["k"] == "field" and p[-1].get("n") == "free_trees":
+            ft = T.canon(tm.rvalue(st["rv"]))
+    ok_ft = ft is not None and ft[0] == "bin" and ft[1] == "Div" and ft[3] == ("c", TF) and ft[2][0] == "f" and ft[2][2] == "free_frames"
+    rep.check(ok_ft, rule, "stats_at|tree|free_trees", "free_trees = free_frames / TREE_FRAMES",
+              "the per-tree query computes free_trees as %s" % (ft,), b.span)
+
+
 def run(rep, programs):
     prog = programs["core"]
     rep.assume("the invariant G + L = B - offline holds initially (C06, not claimed)")
     r_balance_t(rep, prog)
     r_balance(rep, prog)
     r_stats_merge(rep, prog)
+    r_stats_at(rep, prog)
     # the counter that is charged belongs to the tree the frame is taken from
     from props import c15
     c15.r_reserve_before_lower(rep, prog)
